@@ -36,7 +36,7 @@ LEVEL_TEXT = (
     "Exploration: unary, exchange and producer responses of the real HTTP app with payload sizes chosen so that the framed body / "
     "upload lands on cap-1, cap, cap+1 (framed and logical bytes; binary search for fixed caps), with and without log batches, three "
     "response codings, cap pairs including None, externalisation thresholds below and above the batch size, upload compression "
-    "off/zstd/gzip. Held means no recorded body or upload length among the executions listed contradicted the caps."
+    "off/zstd/gzip. Error replies are judged too (bare cap-error envelope, cap error carrying other batches, failing method with logs). Held means no recorded body or upload length among the executions listed contradicted the caps."
 )
 LEVEL_NOTE = "HTTP driven in-process; storage is a recording object (no network); framed sizes are measured on an uncapped twin of the same app"
 CATEGORY = "exploration"
